@@ -308,4 +308,79 @@ one of the run's keys over exactly the parsed bytes) -/
 def Justified (C : Crypto) (R : Codec) (e : Event) : Prop :=
   ∀ idx, e.out = .res (.ok idx) → ∃ archive, Spec.Acceptable C R e.keys e.opts e.url e.arch archive (.ok idx)
 
+/-! ## tables shared between reads (sequential or in flight at the same time)
+
+`indexCache` hands the result of one read to another read through tables: the map of parsed indexes and the per-key
+`sync.Once` (both under `key = u@etag#mode`; a reader that arrives while the first one is still downloading waits on
+the `Once` and then loads the first one's result), `urlToEtag` / `modtimes` (under `um = u#mode`).  `Share` is any
+such table: a key function and the entries published so far.  A concurrent execution is a sequence of `sharedRead`s in
+the order in which the readers reach the table (joining something in flight = a hit on the entry the leader is going
+to publish), each reader with the bytes its own download would have returned. -/
+
+/-- what one read brings to a lookup in a shared table -/
+structure ReadCtx where
+  keys : Keys
+  opts : Opts
+  url : Text
+  arch : Text
+  tok : Text
+  deriving DecidableEq, Repr
+
+def ReadCtx.mode (c : ReadCtx) : Mode := modeOf c.keys c.opts c.url c.arch
+
+structure Share (κ : Type) where
+  kf : ReadCtx → κ
+  ents : List (κ × Res)
+
+def Share.find {κ : Type} [DecidableEq κ] (s : Share κ) (c : ReadCtx) : Option Res :=
+  match s.ents.find? (fun e => e.1 == s.kf c) with
+  | some e => some e.2
+  | none => none
+
+def Share.put {κ : Type} (s : Share κ) (c : ReadCtx) (r : Res) : Share κ := { s with ents := (s.kf c, r) :: s.ents }
+
+/-- one read through a shared table: a hit returns what the table holds, a miss parses the reader's bytes under the
+reader's own keys and options and publishes the result -/
+def sharedRead {κ : Type} [DecidableEq κ] (C : Crypto) (R : Codec) (s : Share κ) (c : ReadCtx) (b : Bytes) : Res × Share κ :=
+  match s.find c with
+  | some r => (r, s)
+  | none =>
+    let r := parseIndex C R c.keys c.opts c.url c.arch b
+    (r, s.put c r)
+
+def sharedReads {κ : Type} [DecidableEq κ] (C : Crypto) (R : Codec) : Share κ → List (ReadCtx × Bytes) → List (ReadCtx × Res) × Share κ
+  | s, [] => ([], s)
+  | s, (c, b) :: rest =>
+    let (r, s1) := sharedRead C R s c b
+    let (rs, s2) := sharedReads C R s1 rest
+    ((c, r) :: rs, s2)
+
+/-- the key `u@etag#mode` of `indexes` / `onces` -/
+def codeKey (c : ReadCtx) : MemoKey := memoKey implKeying c.keys c.opts c.url c.arch c.tok
+
+/-- the key `u#mode` of `urlToEtag` / `modtimes` -/
+def codeUm (c : ReadCtx) : Text × Mode := (c.url, c.mode)
+
+/-- a key that leaves the mode out: the index URL alone (with or without the token) -/
+def urlKey (c : ReadCtx) : Text := c.url
+def urlTokKey (c : ReadCtx) : Text × Text := (c.url, c.tok)
+
+/-! ## the key set of an APK: the files directly in the keys directory of its root file system -/
+
+/-- a regular file of the root file system: directory, name, content -/
+structure RootFile where
+  dir : Text
+  name : Text
+  body : Bytes
+  deriving DecidableEq, Repr
+
+/-- `keysDirPath` (const.go; tied in Proofs/C04Share) -/
+def keysDirPath : Text := "etc/apk/keys".toList
+
+/-- `APK.GetRepositoryIndexes`: `a.fs.ReadDir(keysDirPath)`; every entry that is not a directory is read and put into
+the map under its file name.  Nothing else of the root is looked at: not `usr/share/apk/keys/<arch>`, not
+subdirectories of the keys directory, not `etc/apk/keys.d`. -/
+def keysOfRoot (root : List RootFile) : Keys :=
+  (root.filter (fun f => f.dir == keysDirPath)).map (fun f => (f.name, f.body))
+
 end Apko.IndexSig.Glue
